@@ -12,15 +12,17 @@ From Geff.Gen Require Import Consts.
 Open Scope string_scope.
 Open Scope list_scope.
 
-(* a property the writer can store under `name`: the name is not empty; after the float16 -> float32 upcast the dtype is one
-   of geff's; a variable-length property has at least one element, and all its elements have one dtype and one rank *)
+(* a property the writer can store under `name`: the name is not empty; a fixed-shape property has, after the float16 -> float32
+   upcast, one of geff's dtypes; a variable-length property has at least one element, all its elements AS GIVEN have one dtype
+   (a float16 element beside a float32 element is rejected, although both would be float32 after the upcast) and one rank, and that
+   dtype, after the upcast, is one of geff's *)
 Definition storable (name : string) (p : prop) : Prop :=
   name <> "" /\
-  match p_vals (upcast_prop p) with
-  | PFixed a => valid_prop_dtype (a_dt a) = true
+  match p_vals p with
+  | PFixed a => valid_prop_dtype (a_dt (upcast_arr a)) = true
   | PVlen [] => False
   | PVlen (e :: r) =>
-      valid_prop_dtype (v_dt e) = true /\
+      valid_prop_dtype (v_dt (upcast_varr e)) = true /\
       Forall (fun x => v_dt x = v_dt e /\ length (v_shape x) = length (v_shape e)) r
   end.
 
@@ -29,33 +31,48 @@ Proof. rewrite Bool.negb_true_iff. split.
   - intros H E. subst. discriminate.
   - intros H. destruct (String.eqb name "") eqn:E; [apply String.eqb_eq in E; contradiction | reflexivity]. Qed.
 
+Lemma upcast_varr_shape x : v_shape (upcast_varr x) = v_shape x.
+Proof. unfold upcast_varr. destruct (dtype_eqb (v_dt x) DF16); reflexivity. Qed.
+Lemma upcast_varr_dt_eq x e : v_dt x = v_dt e -> v_dt (upcast_varr x) = v_dt (upcast_varr e).
+Proof. intros H. unfold upcast_varr. rewrite H. destruct (dtype_eqb (v_dt e) DF16); cbn; [reflexivity | exact H]. Qed.
+
 Theorem encodable_iff name p : encodable (name, p) <-> storable name p.
 Proof.
-  unfold encodable, storable, create_props_metadata, encode_prop. cbn [fst snd].
-  destruct (p_vals (upcast_prop p)) as [a|[|e r]].
+  unfold encodable, storable, create_props_metadata, vlen_dtypes_uniform, cpm_core, encode_prop. cbn [fst snd].
+  destruct p as [vals miss]. unfold upcast_prop. cbn [p_vals p_missing].
+  destruct vals as [a|[|e r]]; cbn [p_vals map].
   - (* fixed *)
     split.
-    + intros (pm & enc & H & _). destruct (valid_prop_dtype (a_dt a)) eqn:Ev; [|discriminate].
+    + intros (pm & enc & H & _). destruct (valid_prop_dtype (a_dt (upcast_arr a))) eqn:Ev; [|discriminate].
       destruct (negb (String.eqb name "")) eqn:En; [|discriminate]. split; [apply name_nonempty_b; exact En | reflexivity].
     + intros [Hn Hv]. rewrite Hv. apply name_nonempty_b in Hn. rewrite Hn. cbn. eexists; eexists; split; reflexivity.
   - split; [intros (pm & enc & H & _); discriminate | intros [_ []]].
   - (* variable length *)
-    pose proof (serialize_ok_iff (e :: r)) as Hser. unfold uniform, uniform_with in Hser.
+    pose proof (serialize_ok_iff (upcast_varr e :: map upcast_varr r)) as Hser. unfold uniform, uniform_with in Hser.
     split.
     + intros (pm & enc & H & He).
-      destruct (forallb (fun x => dtype_eqb (v_dt x) (v_dt e)) r) eqn:Ef; [|discriminate].
-      destruct (valid_prop_dtype (v_dt e)) eqn:Ev; [|discriminate].
+      destruct (forallb (fun x => dtype_eqb (v_dt x) (v_dt e)) r) eqn:Eo; [|discriminate].
+      destruct (forallb (fun x => dtype_eqb (v_dt x) (v_dt (upcast_varr e))) (map upcast_varr r)) eqn:Ef; [|discriminate].
+      destruct (valid_prop_dtype (v_dt (upcast_varr e))) eqn:Ev; [|discriminate].
       destruct (negb (String.eqb name "")) eqn:En; [|discriminate].
       split; [apply name_nonempty_b; exact En|]. split; [reflexivity|].
-      assert (Hu : Forall (fun a => length (v_shape a) = length (v_shape e) /\ v_dt a = v_dt e) (e :: r)).
-      { apply Hser. destruct (serialize (e :: r)) as [[rows data]|er]; [eexists; reflexivity | discriminate]. }
-      inversion Hu as [|? ? _ Hr]; subst. eapply Forall_impl; [|exact Hr]. cbn. intros x [Hx1 Hx2]. split; assumption.
-    + intros [Hn [Hv HF]]. apply name_nonempty_b in Hn.
-      assert (Ef : forallb (fun x => dtype_eqb (v_dt x) (v_dt e)) r = true).
-      { apply forallb_forall. intros x Hx. rewrite Forall_forall in HF. destruct (HF x Hx) as [Hd _]. apply dtype_eqb_eq. exact Hd. }
-      rewrite Ef, Hv, Hn. cbn [andb].
-      assert (Hu : Forall (fun a => length (v_shape a) = length (v_shape e) /\ v_dt a = v_dt e) (e :: r)).
-      { constructor; [split; reflexivity|]. eapply Forall_impl; [|exact HF]. cbn. intros x [Hx1 Hx2]. split; assumption. }
+      assert (Hu : Forall (fun a => length (v_shape a) = length (v_shape (upcast_varr e)) /\ v_dt a = v_dt (upcast_varr e))
+                          (upcast_varr e :: map upcast_varr r)).
+      { apply Hser. destruct (serialize (upcast_varr e :: map upcast_varr r)) as [[rows data]|er]; [eexists; reflexivity | discriminate]. }
+      inversion Hu as [|? ? _ Hr]; subst. rewrite Forall_forall in Hr. apply Forall_forall. intros x Hx. split.
+      * rewrite forallb_forall in Eo. apply dtype_eqb_eq. exact (Eo x Hx).
+      * destruct (Hr (upcast_varr x) (in_map upcast_varr r x Hx)) as [Hl _]. rewrite !upcast_varr_shape in Hl. exact Hl.
+    + intros [Hn [Hv HF]]. apply name_nonempty_b in Hn. rewrite Forall_forall in HF.
+      assert (Eo : forallb (fun x => dtype_eqb (v_dt x) (v_dt e)) r = true).
+      { apply forallb_forall. intros x Hx. destruct (HF x Hx) as [Hd _]. apply dtype_eqb_eq. exact Hd. }
+      assert (Ef : forallb (fun x => dtype_eqb (v_dt x) (v_dt (upcast_varr e))) (map upcast_varr r) = true).
+      { apply forallb_forall. intros y Hy. apply in_map_iff in Hy. destruct Hy as [x [<- Hx]]. destruct (HF x Hx) as [Hd _].
+        apply dtype_eqb_eq. apply upcast_varr_dt_eq. exact Hd. }
+      rewrite Eo, Ef, Hv, Hn. cbn [andb].
+      assert (Hu : Forall (fun a => length (v_shape a) = length (v_shape (upcast_varr e)) /\ v_dt a = v_dt (upcast_varr e))
+                          (upcast_varr e :: map upcast_varr r)).
+      { constructor; [split; reflexivity|]. apply Forall_forall. intros y Hy. apply in_map_iff in Hy. destruct Hy as [x [<- Hx]].
+        destruct (HF x Hx) as [Hd Hl]. rewrite !upcast_varr_shape. split; [exact Hl | apply upcast_varr_dt_eq; exact Hd]. }
       apply Hser in Hu. destruct Hu as [[rows data] Hs]. rewrite Hs. eexists; eexists; split; reflexivity.
 Qed.
 
